@@ -180,10 +180,6 @@ def check(prop: str, tier: str, seed: int) -> int:
         results += run_workers(prop, tier, seed + 100003 * extra, workers)
         m = merge(results)
         missing = [b for b in required if m["hist"].get(b, 0) == 0]
-    if missing:
-        print(f"INFRA: generator did not reach required buckets {missing}", file=sys.stderr)
-        return 2
-
     known = common.load_findings().get(prop, {})
     known_hit = set()
     unlisted = []
@@ -192,6 +188,14 @@ def check(prop: str, tier: str, seed: int) -> int:
             known_hit.add(f["key"])
         else:
             unlisted.append(f)
+    if missing and not (unlisted or build["broken"] or m["disagreements"]):
+        # lost coverage with nothing else wrong is an infrastructure problem (exit 2).  When the same run has a concrete
+        # failing input, a broken obligation or a disagreement, the lost coverage is most likely its consequence (an
+        # implementation that raises where the generator wanted to go on): the verdict below is reported instead.
+        print(f"INFRA: generator did not reach required buckets {missing}", file=sys.stderr)
+        return 2
+    if missing:
+        print(f"note: required buckets not reached in a run that found something else wrong: {missing}", file=sys.stderr)
 
     needs_search = bool(build["broken"] or m["disagreements"]) and not unlisted
     if needs_search:
